@@ -39,8 +39,10 @@ enum ObserverOp {
     TryUpdateFarAhead,
     TryUpdateOlder,
     Sequence,
+    /// four try_update calls in a row (state that drifts from one contended call to the next)
+    TryUpdateFourTimes,
 }
-const OBSERVER_OPS: [ObserverOp; 6] = [ObserverOp::Snapshot, ObserverOp::SnapshotTwice, ObserverOp::TryUpdateNewer, ObserverOp::TryUpdateFarAhead, ObserverOp::TryUpdateOlder, ObserverOp::Sequence];
+const OBSERVER_OPS: [ObserverOp; 7] = [ObserverOp::Snapshot, ObserverOp::SnapshotTwice, ObserverOp::TryUpdateNewer, ObserverOp::TryUpdateFarAhead, ObserverOp::TryUpdateOlder, ObserverOp::Sequence, ObserverOp::TryUpdateFourTimes];
 const FAR: u64 = 1_000_000;
 
 #[derive(Clone, Debug, PartialEq, Eq)]
@@ -203,6 +205,11 @@ fn run_controlled(sc: &Scenario, abt: &Arc<AtomicBaseTime>, ctl: &Arc<Controller
                 ObserverOp::TryUpdateFarAhead => out.push((FAR, true, abt.try_update(pair(FAR)))),
                 ObserverOp::TryUpdateOlder => out.push((1, true, abt.try_update(pair(1)))),
                 ObserverOp::Sequence => out.push((abt.sequence(), true, true)),
+                ObserverOp::TryUpdateFourTimes => {
+                    for i in 0..4u64 {
+                        out.push((40 + i, true, abt.try_update(pair(40 + i))));
+                    }
+                }
             }
             *res.lock().unwrap() = out;
         }));
@@ -336,6 +343,19 @@ fn run_controlled(sc: &Scenario, abt: &Arc<AtomicBaseTime>, ctl: &Arc<Controller
                 accepted_max = accepted_max.max(if sc.observer == ObserverOp::TryUpdateFarAhead { FAR } else { 40 });
             }
         }
+        ObserverOp::TryUpdateFourTimes => {
+            if locks > 0 && outcome.frozen_holding_lock {
+                return Err((format!("one of four consecutive try_update calls used a blocking lock() while a suspended writer holds the lock: {:?}", events), handles));
+            }
+            let acquired = events.iter().filter(|e| matches!(e, Op::TryLocked(true))).count();
+            let accepted = results.iter().filter(|r| r.2).count();
+            if accepted > acquired {
+                return Err(("try_update returned true without acquiring the lock".to_string(), handles));
+            }
+            if let Some(m) = results.iter().filter(|r| r.2).map(|r| r.0).max() {
+                accepted_max = accepted_max.max(m);
+            }
+        }
         ObserverOp::Sequence => {
             if locks + trylocks > 0 || loads != 1 {
                 return Err((format!("sequence() performed {:?}", events), handles));
@@ -367,6 +387,7 @@ fn scenarios(tier: Tier) -> Vec<Scenario> {
                     ObserverOp::SnapshotTwice => 8,
                     ObserverOp::TryUpdateNewer | ObserverOp::TryUpdateFarAhead | ObserverOp::TryUpdateOlder => 8,
                     ObserverOp::Sequence => 1,
+                    ObserverOp::TryUpdateFourTimes => 2,
                 };
                 for observer_pause in 0..=max_pause {
                     for completed_writer in [false, true] {
@@ -491,12 +512,86 @@ fn nfs_scenario(k: usize, observer_is_observe: bool, second: bool, warm: bool, d
     result
 }
 
+/// Clause (ii), second shape: a refresh (`get_base_time` with a `now` far ahead) is suspended inside its blocking update of
+/// the base time after k steps, i.e. holding the writer lock AND the read guard on the module's
+/// table of trusted paths; another thread's `add_trusted_path` is queued behind that guard for
+/// write access; then `get_base_time_unlocked` runs with a `now` far ahead of the base time.  It
+/// must return without waiting for anybody (a reader-writer lock stops admitting readers once a
+/// writer is queued, so touching that table would make it wait for the suspended refresh).
+fn nfs_scan_scenario(k: usize, dir: &std::path::Path) -> Result<Vec<Op>, String> {
+    use vouched_time::nfs_voucher;
+    nfs_voucher::add_trusted_path(dir.join("warm")).map_err(|e| format!("harness: warm-up registration failed: {}", e))?;
+    let ctl = Controller::new(3);
+    ctl.install();
+    let mut handles: Handles = Vec::new();
+    handles.push(spawn_role(&ctl, ROLE_FROZEN0, move || {
+        // a refresh: `now` far ahead of the base time makes get_base_time scan the trusted paths
+        let _ = nfs_voucher::get_base_time(time::OffsetDateTime::now_utc() + time::Duration::hours(1));
+    }));
+    ctl.grant(ROLE_FROZEN0, k);
+    let stop = ctl.settle(ROLE_FROZEN0, 1000);
+    let mut queued: Option<std::thread::JoinHandle<()>> = None;
+    let result = (|| {
+        match stop {
+            Stop::Timeout => return Err("harness: the suspended scan_base_time did not settle".to_string()),
+            Stop::Done => return Ok(Vec::new()), // the refresh finished within k steps: nothing is suspended
+            _ => {}
+        }
+        // queue a writer on the table of trusted paths (an ordinary thread: it blocks in the real lock)
+        let p = dir.join("second");
+        queued = Some(std::thread::spawn(move || {
+            let _ = nfs_voucher::add_trusted_path(p);
+        }));
+        std::thread::sleep(std::time::Duration::from_millis(60));
+        let res: Arc<std::sync::Mutex<Option<bool>>> = Arc::new(std::sync::Mutex::new(None));
+        let res2 = res.clone();
+        handles.push(spawn_role(&ctl, ROLE_OBSERVER, move || {
+            let far = time::OffsetDateTime::now_utc() + time::Duration::hours(1);
+            let ok = match nfs_voucher::get_base_time_unlocked(far) {
+                Ok((b, v)) => CHECK.check(b, v),
+                Err(_) => false,
+            };
+            *res2.lock().unwrap() = Some(ok);
+        }));
+        ctl.grant(ROLE_OBSERVER, UNLIMITED);
+        let stop = ctl.settle_within(ROLE_OBSERVER, STEP_CAP, std::time::Duration::from_secs(2));
+        let events = ctl.events(ROLE_OBSERVER);
+        match stop {
+            Stop::Done => {}
+            Stop::ParkedInLock => return Err(format!("get_base_time_unlocked WAITS for the base-time writer lock held by a suspended refresh (its steps: {:?})", events)),
+            Stop::StepCap => return Err(format!("get_base_time_unlocked does not complete within {} steps while a refresh is suspended", STEP_CAP)),
+            Stop::Timeout => return Err(format!("get_base_time_unlocked did not return within 2 s while a refresh is suspended after {} steps and a registration is queued behind it: it waits (outside the base-time lock) for the suspended writer (its steps so far: {:?})", k, events)),
+            other => return Err(format!("harness: get_base_time_unlocked stopped at {:?}", other)),
+        }
+        if events.iter().any(|e| matches!(e, Op::Lock | Op::TryLock)) {
+            return Err(format!("get_base_time_unlocked performed lock operations: {:?}", events));
+        }
+        if *res.lock().unwrap() != Some(true) {
+            return Err("get_base_time_unlocked failed or returned a pair that does not check".to_string());
+        }
+        Ok(events)
+    })();
+    ctl.release_all();
+    for h in handles {
+        let _ = h.join();
+    }
+    if let Some(q) = queued {
+        let _ = q.join();
+    }
+    Controller::uninstall();
+    result
+}
+
 /// The module's state (BASE_TIME, TRUSTED_PATHS) is process-global, so every scenario runs in a
 /// fresh child process of this executable.
 fn nfs_child_run(k: usize, observe: bool, second: bool, warm: bool) -> Result<usize, String> {
+    nfs_child_run_kind(k, observe, second, warm, false)
+}
+
+fn nfs_child_run_kind(k: usize, observe: bool, second: bool, warm: bool, scan: bool) -> Result<usize, String> {
     let exe = std::env::current_exe().map_err(|e| format!("harness: current_exe: {}", e))?;
     let out = std::process::Command::new(exe)
-        .args(["--nfs-child", &k.to_string(), &observe.to_string(), &second.to_string(), &warm.to_string()])
+        .args(["--nfs-child", &k.to_string(), &observe.to_string(), &second.to_string(), &warm.to_string(), if scan { "scan" } else { "register" }])
         .output()
         .map_err(|e| format!("harness: cannot spawn the scenario child: {}", e))?;
     let text = String::from_utf8_lossy(&out.stdout);
@@ -517,7 +612,8 @@ fn nfs_child_main(args: &[String]) -> ! {
     let dir = std::path::PathBuf::from(format!("/tmp/woodpile-c18-{}", std::process::id()));
     let _ = std::fs::remove_dir_all(&dir);
     let _ = std::fs::create_dir_all(&dir);
-    let r = match catch(|| nfs_scenario(k, flag(1), flag(2), flag(3), &dir)) {
+    let scan = args.get(4).map(|s| s == "scan").unwrap_or(false);
+    let r = match catch(|| if scan { nfs_scan_scenario(k, &dir) } else { nfs_scenario(k, flag(1), flag(2), flag(3), &dir) }) {
         Ok(r) => r,
         Err(p) => Err(format!("panic: {}", p)),
     };
@@ -562,6 +658,33 @@ fn nfs_clause(ctx: &Ctx, rep: &mut Report) {
             }
         }
     }
+    // second shape: a suspended refresh holding the table's read guard, a queued registration
+    for k in 1..=14usize {
+        unit += 1;
+        if !ctx.owns(unit) {
+            continue;
+        }
+        rep.evaluations += 1;
+        match nfs_child_run_kind(k, false, true, true, true) {
+            Ok(events) => {
+                rep.transitions += events as u64;
+                rep.count("nfs_scan_scenarios", 1);
+                rep.state(hash_of(&("nfs-scan", k)));
+            }
+            Err(e) if e.starts_with("harness:") => machinery_failure(&format!("{} (nfs scan scenario k={})", e, k)),
+            Err(e) => {
+                if nfs_child_run_kind(k, false, true, true, true).is_ok() {
+                    machinery_failure(&format!("C18 nfs scan violation did not reproduce: k={}: {}", k, e));
+                }
+                rep.violation(Violation {
+                    key: format!("C18:nfs-scan:k={}", k),
+                    summary: format!("nfs_voucher with a refreshing get_base_time suspended after {} steps and an add_trusted_path queued behind it: {}", k, e),
+                    replay_text: format!("nfs: k={} scan=true\nobserved: {}\n", k, e),
+                });
+            }
+        }
+    }
+    rep.note("clause (ii), second shape: a refreshing get_base_time suspended after each of its first 14 steps (inside its blocking update it holds the writer lock and the read guard on the table of trusted paths), an add_trusted_path queued behind it, then get_base_time_unlocked with a now one hour ahead: it must return (2 s deadline) without lock operations".to_string());
     rep.note("clause (ii): nfs_voucher::get_base_time_unlocked and observe_file_time run alone while a thread is suspended after each of the first 13 steps of add_trusted_path's update of the module's BASE_TIME (holding its writer lock for steps 2..), in a fresh process and after a completed registration, with and without a second add_trusted_path completing while the first is suspended; every scenario in its own child process (the module state is process-global): no lock operation / no waiting, at most 4 loads, a checked pair".to_string());
 }
 
@@ -616,7 +739,7 @@ fn replay(_ctx: &Ctx, text: &str) -> Result<String, String> {
     }
     if let Some(n) = field(text, "nfs") {
         let k: usize = n.split("k=").nth(1).and_then(|x| x.split(' ').next()).and_then(|x| x.parse().ok()).unwrap_or(0);
-        let r = nfs_child_run(k, n.contains("observe=true"), n.contains("second=true"), n.contains("warm=true"));
+        let r = if n.contains("scan=true") { nfs_child_run_kind(k, false, true, true, true) } else { nfs_child_run(k, n.contains("observe=true"), n.contains("second=true"), n.contains("warm=true")) };
         return match r {
             Err(e) => Ok(e),
             Ok(ev) => Err(format!("completed alone in {} steps", ev)),
